@@ -92,6 +92,11 @@ impl<'c, W: WorldDriver> Session<'c, W> {
                     continue;
                 }
                 let path = IterPath::pick(self.rot.wrapping_add(a * 3).wrapping_add(si));
+                if path.adaptor() {
+                    let k = self.rot % 3 + 1;
+                    self.iterate_adaptor(si, a, path, k)?;
+                    continue;
+                }
                 let obs = match catch(|| W::iterate(&mut self.sims[si].w, a, path, None)) {
                     Ok(o) => o,
                     Err(m) => return Err(self.fail(&["C06"], "iterate-panic", format!("{:?} over {} panicked: {}", path, self.infos[a].name, m))),
